@@ -1,4 +1,5 @@
 import Varpulis.Model.RaftSM
+import Varpulis.Generated.RaftCommands
 /-! Lemmas about M-RAFTSM: batching, well-formedness (no panic), total versions, snapshots. -/
 namespace Varpulis.RaftSM
 
@@ -177,5 +178,43 @@ theorem applyEntriesT_lastApplied (sm : SM) (es : List Entry) :
       cases h : (e' :: es').getLast? with
       | some x => rfl
       | none => simp at h
+
+/-! ### extracted tables -/
+section Extracted
+open Varpulis.Generated.RaftCommands
+
+/-- the single state field the source arm of a variant touches (from the extracted table) -/
+def armField (tag : String) : Option String :=
+  match arms.find? (fun a => a.1 == tag) with
+  | some (_, [f], _, _) => some f
+  | _ => none
+
+theorem tag_mem (c : Cmd) : c.tag ∈ Cmd.tags := by cases c <;> simp [Cmd.tag, Cmd.tags]
+
+
+theorem arm_frame (c : Cmd) (s : State) : ∃ f, armField c.tag = some f ∧ frame f s (applyCmdT s c) := by
+  cases c with
+  | registerWorker => exact ⟨"workers", by simp only [Cmd.tag]; decide, by simp [frame, applyCmdT, applyCmd]⟩
+  | deregisterWorker => exact ⟨"workers", by simp only [Cmd.tag]; decide, by simp [frame, applyCmdT, applyCmd]⟩
+  | workerStatusChanged => exact ⟨"workers", by simp only [Cmd.tag]; decide, by simp [frame, applyCmdT, applyCmd]⟩
+  | workerPipelinesUpdated => exact ⟨"workers", by simp only [Cmd.tag]; decide, by simp [frame, applyCmdT, applyCmd]⟩
+  | groupDeployed => exact ⟨"pipeline_groups", by simp only [Cmd.tag]; decide, by simp [frame, applyCmdT, applyCmd]⟩
+  | groupUpdated => exact ⟨"pipeline_groups", by simp only [Cmd.tag]; decide, by simp [frame, applyCmdT, applyCmd]⟩
+  | groupRemoved => exact ⟨"pipeline_groups", by simp only [Cmd.tag]; decide, by simp [frame, applyCmdT, applyCmd]⟩
+  | migrationStarted t =>
+    refine ⟨"active_migrations", by simp only [Cmd.tag]; decide, ?_⟩
+    cases h : t.idStr <;> simp [frame, applyCmdT, applyCmd, h]
+  | migrationUpdated id st =>
+    refine ⟨"active_migrations", by simp only [Cmd.tag]; decide, ?_⟩
+    by_cases h : statusPanics s id = true <;> simp [frame, applyCmdT, applyCmd, h]
+  | migrationRemoved => exact ⟨"active_migrations", by simp only [Cmd.tag]; decide, by simp [frame, applyCmdT, applyCmd]⟩
+  | connectorCreated => exact ⟨"connectors", by simp only [Cmd.tag]; decide, by simp [frame, applyCmdT, applyCmd]⟩
+  | connectorUpdated => exact ⟨"connectors", by simp only [Cmd.tag]; decide, by simp [frame, applyCmdT, applyCmd]⟩
+  | connectorRemoved => exact ⟨"connectors", by simp only [Cmd.tag]; decide, by simp [frame, applyCmdT, applyCmd]⟩
+  | scalingPolicySet => exact ⟨"scaling_policy", by simp only [Cmd.tag]; decide, by simp [frame, applyCmdT, applyCmd]⟩
+  | modelRegistered => exact ⟨"models", by simp only [Cmd.tag]; decide, by simp [frame, applyCmdT, applyCmd]⟩
+  | modelRemoved => exact ⟨"models", by simp only [Cmd.tag]; decide, by simp [frame, applyCmdT, applyCmd]⟩
+
+end Extracted
 
 end Varpulis.RaftSM
